@@ -313,6 +313,11 @@ example : mergeKVs [(['a'], .leaf (.i 1))] [(['a'], .dict [])] = .error .ambiguo
 example : (chosenFile (fun s => if s = "yml" then some [(['k'], .leaf (.i 1))] else if s = "py" then some [] else none)).map Prod.fst
     = some "yml" := by
   rw [first_existing_suffix]; decide
+/-- an EXISTING first candidate that holds no settings (a blank `invoke.yaml`) is the level — empty —; the `json`
+    candidate with real settings behind it is never consulted -/
+example : chosenFile (fun s => if s = "yaml" then some [] else if s = "json" then some [(['k'], .leaf (.i 1))] else none)
+    = some ("yaml", []) := by
+  rw [chosenFile, generated_suffixes_documented.1]; simp [loadFirst]
 /-- load order: project-then-defaults = defaults-then-project -/
 example : (LoadSt.init.loads [(.project, exLevels .project), (.defaults, exLevels .defaults)]).cache =
           (LoadSt.init.loads [(.defaults, exLevels .defaults), (.project, exLevels .project)]).cache :=
